@@ -1,6 +1,7 @@
 import PytezosModel.Proofs.InterpTyping
 import PytezosModel.Proofs.InterpStep
 import PytezosModel.Proofs.InterpColl
+set_option linter.unusedSectionVars false   -- `[Mode]` is a section variable of every lemma here; some do not use it
 /-! Type soundness of the reference semantics of the modelled core (C02): rules without sub-programs. -/
 namespace Interp
 variable [Mode]
